@@ -21,6 +21,13 @@ Writes(prog, fin, k) == WriteRegs(InsAt(prog, fin, k)) \ {"zero"}
 Reads(prog, fin, k) == ReadRegs(InsAt(prog, fin, k)) \ {"zero"}
 N(fin) == Len(fin.ev)
 
+(* j depends (through registers, transitively) on the value produced by h *)
+RECURSIVE DependsOn(_, _, _, _)
+DependsOn(prog, fin, j, h) ==
+  /\ h < j
+  /\ \/ (Writes(prog, fin, h) \cap Reads(prog, fin, j)) # {}
+     \/ \E m \in (h + 1) .. (j - 1) : (Writes(prog, fin, m) \cap Reads(prog, fin, j)) # {} /\ DependsOn(prog, fin, m, h)
+
 (* a store whose line no earlier executed load brought into the cache *)
 StoreMissAt(prog, fin, k) ==
   /\ IsStoreAt(prog, fin, k)
@@ -88,7 +95,7 @@ LoadMissThenStore(prog, fin) ==
     /\ ~\E h \in 1 .. (i - 1) : IsLoadAt(prog, fin, h) /\ LineOf(fin.ev[h].a) = LineOf(fin.ev[i].a)
     \* the store does not wait for the line: it reads no register written by a load of that line
     /\ \A h \in i .. (j - 1) : (IsLoadAt(prog, fin, h) /\ LineOf(fin.ev[h].a) = LineOf(fin.ev[j].a))
-                                   => (Reads(prog, fin, j) \cap Writes(prog, fin, h)) = {}
+                                   => ~DependsOn(prog, fin, j, h)
 
 (* F10c (MVP-7.0 .. 8, >= 3 cores): the control unit tracks register hazards only;     *)
 (* two memory instructions on different cores are ordered by their latencies, not by   *)
@@ -125,6 +132,16 @@ ShadowOfSlowBranch(prog, fin) ==
     /\ fin.ev[k].i + 1 < Len(prog)
     /\ \E h \in 1 .. (k - 1) : k - h <= 10 /\ IsLoadAt(prog, fin, h) /\ (Writes(prog, fin, h) \cap Reads(prog, fin, k)) # {}
 
+(* F03c (MVP-6.0): the flush drain compares the sequence id of a pending write-back    *)
+(* (pc + 1000 x number of jumps so far) with the PC of the flushing instruction, so    *)
+(* after the first taken transfer every later flush discards the write-backs still     *)
+(* queued behind a busy write unit.  Masks: a taken transfer that is not the first     *)
+(* one and has a store miss among the 310 executed instructions before it.             *)
+LaterFlushAfterStoreMiss(prog, fin) ==
+  \E k \in 1 .. N(fin) : /\ fin.ev[k].t
+                         /\ \E e \in 1 .. (k - 1) : fin.ev[e].t
+                         /\ \E j \in 1 .. (k - 1) : k - j <= 310 /\ StoreMissAt(prog, fin, j)
+
 Tags(prog, fin) ==
   (IF RetAfterStoreMiss(prog, fin) THEN {"ret_after_store_miss"} ELSE {})
   \cup (IF RetDropsInflight(prog, fin) THEN {"ret_drops_inflight"} ELSE {})
@@ -137,4 +154,5 @@ Tags(prog, fin) ==
   \cup (IF MemDepInflight(prog, fin) THEN {"mem_dep_inflight"} ELSE {})
   \cup (IF WarRenamed(prog, fin) THEN {"war_renamed"} ELSE {})
   \cup (IF ShadowOfSlowBranch(prog, fin) THEN {"shadow_of_slow_branch"} ELSE {})
+  \cup (IF LaterFlushAfterStoreMiss(prog, fin) THEN {"later_flush_after_store_miss"} ELSE {})
 =======================================================================
